@@ -1,5 +1,6 @@
-CONSTANTS Callers = {a, b, c} Burst = 2 MaxRemoves = 3 RetryOnMiss = TRUE
+CONSTANTS Callers = {a, b, c} Burst = 2 MaxRemoves = 2 RetryOnMiss = TRUE MaxCleanups = 2 EraseRechecks = TRUE
 SPECIFICATION Spec
 INVARIANT NeverOverdrawn
 INVARIANT NoSpuriousRefusal
+INVARIANT NoBusyEviction
 CHECK_DEADLOCK FALSE
